@@ -148,12 +148,25 @@ func runProgram[E constraint.Element](c *vh.Check, p *progen.Prog, field *big.In
 						sv = append(sv, big.NewInt(1))
 					}
 				}
+				copies := []*big.Int{in[0], in[1], in[2]}
+				sv = append(sv, copies...)
 				name := fmt.Sprintf("prog:%s:%s:%s", b, fname, p)
 				checkSolve[E](c, ccs, name, "prog:"+b+":"+fname, []*big.Int{in[0]}, sv, nil)
+				if !sat && p.NOut() > 0 {
+					// the reference gives no value for an unsatisfiable program: also offer 0 as the claimed
+					// outputs (what a solver that wrongly "solves" a degenerate gate is likely to produce)
+					sv0 := []*big.Int{in[1], in[2]}
+					for i := 0; i < p.NOut(); i++ {
+						sv0 = append(sv0, big.NewInt(0))
+					}
+					sv0 = append(sv0, copies...)
+					checkSolve[E](c, ccs, name, "prog:"+b+":"+fname, []*big.Int{in[0]}, sv0, nil)
+				}
 				if sat && p.NOut() > 0 {
 					// an invalid witness: last exposed value off by one
 					sv2 := append([]*big.Int(nil), sv...)
-					sv2[len(sv2)-1] = new(big.Int).Mod(new(big.Int).Add(sv2[len(sv2)-1], big.NewInt(1)), field)
+					li := 2 + p.NOut() - 1 // last exposed value (the input copies follow)
+					sv2[li] = new(big.Int).Mod(new(big.Int).Add(sv2[li], big.NewInt(1)), field)
 					checkSolve[E](c, ccs, name, "prog:"+b+":"+fname, []*big.Int{in[0]}, sv2, nil)
 				}
 			}
